@@ -112,28 +112,34 @@ class BooleanExpression(Expression):
         )
 
     def __str__(self) -> str:
-        def _str(expression: Expression, parent_precedence: int) -> str:
+        # The parser gives `and` and `or` the same precedence and groups them from
+        # the right, and `not` takes everything up to the end of its group. So a
+        # logical expression on the left-hand side of `and`/`or` needs parentheses,
+        # whatever its operator.
+        def _str(
+            expression: Expression, parent_precedence: int, *, left: bool = False
+        ) -> str:
             if isinstance(expression, LogicalAndExpression):
                 precedence = PRECEDENCE_LOGICAL_AND
                 op = "and"
-                left = _str(expression.left, precedence)
+                left_ = _str(expression.left, precedence, left=True)
                 right = _str(expression.right, precedence)
             elif isinstance(expression, LogicalOrExpression):
                 precedence = PRECEDENCE_LOGICAL_OR
                 op = "or"
-                left = _str(expression.left, precedence)
+                left_ = _str(expression.left, precedence, left=True)
                 right = _str(expression.right, precedence)
             elif isinstance(expression, LogicalNotExpression):
                 operand_str = _str(expression.right, PRECEDENCE_PREFIX)
                 expr = f"not {operand_str}"
-                if parent_precedence > PRECEDENCE_PREFIX:
+                if left or parent_precedence > PRECEDENCE_PREFIX:
                     return f"({expr})"
                 return expr
             else:
                 return str(expression)
 
-            expr = f"{left} {op} {right}"
-            if precedence < parent_precedence:
+            expr = f"{left_} {op} {right}"
+            if left or precedence < parent_precedence:
                 return f"({expr})"
             return expr
 
@@ -161,6 +167,17 @@ class BooleanExpression(Expression):
         if not inline:
             tokens.eat(TOKEN_EOF)
         return BooleanExpression(expr.token, expr)
+
+
+def _operand_str(expression: Expression) -> str:
+    """Return _expression_ as the operand of a comparison or membership operator.
+
+    Logical, comparison and membership expressions only appear as operands if they
+    were grouped with parentheses.
+    """
+    if isinstance(expression, _COMPOUND_EXPRESSIONS):
+        return f"({BooleanExpression(expression.token, expression)})"
+    return str(expression)
 
 
 class LogicalNotExpression(Expression):
@@ -257,7 +274,7 @@ class EqExpression(Expression):
         self.right = right
 
     def __str__(self) -> str:
-        return f"{self.left} == {self.right}"
+        return f"{_operand_str(self.left)} == {_operand_str(self.right)}"
 
     def evaluate(self, context: RenderContext) -> object:
         return _eq(self.left.evaluate(context), self.right.evaluate(context))
@@ -281,7 +298,7 @@ class NeExpression(Expression):
         self.right = right
 
     def __str__(self) -> str:
-        return f"{self.left} != {self.right}"
+        return f"{_operand_str(self.left)} != {_operand_str(self.right)}"
 
     def evaluate(self, context: RenderContext) -> object:
         return not _eq(self.left.evaluate(context), self.right.evaluate(context))
@@ -305,7 +322,7 @@ class LeExpression(Expression):
         self.right = right
 
     def __str__(self) -> str:
-        return f"{self.left} <= {self.right}"
+        return f"{_operand_str(self.left)} <= {_operand_str(self.right)}"
 
     def evaluate(self, context: RenderContext) -> object:
         left = self.left.evaluate(context)
@@ -330,7 +347,7 @@ class GeExpression(Expression):
         self.right = right
 
     def __str__(self) -> str:
-        return f"{self.left} >= {self.right}"
+        return f"{_operand_str(self.left)} >= {_operand_str(self.right)}"
 
     def evaluate(self, context: RenderContext) -> object:
         left = self.left.evaluate(context)
@@ -355,7 +372,7 @@ class LtExpression(Expression):
         self.right = right
 
     def __str__(self) -> str:
-        return f"{self.left} < {self.right}"
+        return f"{_operand_str(self.left)} < {_operand_str(self.right)}"
 
     def evaluate(self, context: RenderContext) -> object:
         return _lt(
@@ -382,7 +399,7 @@ class GtExpression(Expression):
         self.right = right
 
     def __str__(self) -> str:
-        return f"{self.left} > {self.right}"
+        return f"{_operand_str(self.left)} > {_operand_str(self.right)}"
 
     def evaluate(self, context: RenderContext) -> object:
         return _lt(
@@ -409,7 +426,7 @@ class ContainsExpression(Expression):
         self.right = right
 
     def __str__(self) -> str:
-        return f"{self.left} contains {self.right}"
+        return f"{_operand_str(self.left)} contains {_operand_str(self.right)}"
 
     def evaluate(self, context: RenderContext) -> object:
         return _contains(
@@ -425,6 +442,20 @@ class ContainsExpression(Expression):
 
     def children(self) -> list[Expression]:
         return [self.left, self.right]
+
+
+_COMPOUND_EXPRESSIONS = (
+    LogicalNotExpression,
+    LogicalAndExpression,
+    LogicalOrExpression,
+    EqExpression,
+    NeExpression,
+    LeExpression,
+    GeExpression,
+    LtExpression,
+    GtExpression,
+    ContainsExpression,
+)
 
 
 def parse_boolean_primitive(  # noqa: PLR0912
